@@ -215,6 +215,36 @@ func runC02(c *kit.Ctx) {
 		}
 	}
 
+	// the cells delivered to a caller alias the frame buffer of its response: that buffer must not be recycled
+	{
+		allowed := map[string]string{
+			"(*region.client).send":                   "the compressed request buffer, after it was written",
+			"(*region.compressor).compressCellblocks": "the scratch chunk buffer of the compressor",
+		}
+		for k, v := range allowed {
+			c.Table("C02.R3 buffer recycling allowed in " + k + ": " + v)
+		}
+		n := 0
+		for _, s := range callersOf(p, kit.M("region", "", "freeBuffer")) {
+			n++
+			fn := enclosingNamed(s.Parent())
+			_, ok := allowed[kit.FuncName(fn)]
+			c.Check(ok, s.Parent(), "buffer-recycled", s.Pos(), "request-side scratch buffer returned to the pool", "a buffer is returned to the pool on the response path (or a new place): decoded cells handed to callers are sub-slices of the frame buffer, so a later response overwrites the rows and values an earlier caller still holds")
+		}
+		// the frame buffer of a response is allocated per frame
+		fresh := false
+		kit.Instrs(recv, func(in ssa.Instruction) {
+			call, ok := in.(*ssa.Call)
+			if !ok || kit.CalleeName(call) != "io.ReadFull" {
+				return
+			}
+			if mk, ok := kit.Root(call.Call.Args[1]).(*ssa.MakeSlice); ok && mk.Parent() == recv {
+				fresh = true
+			}
+		})
+		c.Check(fresh, recv, "frame-buffer-per-response", recv.Pos(), "every response frame is read into a buffer allocated for it", "response frames are read into a shared or pooled buffer: results still held by callers are overwritten by later responses")
+	}
+
 	// ---- R4 ---------------------------------------------------------------
 	c.StartRule("R4", "multi action index: writer and reader agree, m.calls is never reordered", 6)
 	{
